@@ -174,20 +174,277 @@ def check(prog, res, tier):
             fi = prog.func(q)
             res.add(cipher_ob_generic(prog, res, fi))
 
-    # key combination is an XOR fold
+    # ---- C14.e key combination: the clear key is the XOR of all components, at the components' width
     if prog.has_func('key.get_zone_master_key'):
         zfi = prog.func('key.get_zone_master_key')
-        ob = Ob('C14.d', 'key components are combined with XOR only', func_where(zfi), 'int(p1, 16) ^ int(key_part, 16)',
-                rule='C14.d.xor')
-        ops = [type(n.op).__name__ for n in ast.walk(zfi.node) if isinstance(n, (ast.BinOp, ast.AugAssign))
-               and not isinstance(n.op, (ast.Mult, ast.Mod, ast.Add))]
-        if ops and all(o == 'BitXor' for o in ops):
-            ob.verdict, ob.detail = PROVED, f'{len(ops)} combining operator(s), all XOR'
-        elif not ops:
-            ob.verdict, ob.detail = UNDECIDED, 'no combining operator found'
+        for ob in zmk_obs(prog, res, zfi):
+            res.add(ob)
+    if prog.has_func('key.get_enc_zone_master_key'):
+        res.add(enc_zmk_ob(prog, res, prog.func('key.get_enc_zone_master_key')))
+    if prog.has_func('key.calculate_kcv'):
+        res.add(kcv_ob(prog, res, prog.func('key.calculate_kcv')))
+
+
+class NotXor(Exception):
+    """the value is built with a bit operator other than XOR"""
+
+
+def _one_opq(v, head):
+    """SeqV consisting of one opaque segment whose descriptor is the tuple (head, ...) -> the descriptor."""
+    if isinstance(v, SeqV) and len(v.segs) == 1 and isinstance(v.segs[0], Opq) and isinstance(v.segs[0].desc, tuple) \
+            and v.segs[0].desc and v.segs[0].desc[0] == head:
+        return v.segs[0].desc
+    return None
+
+
+def _part_of(p, v, parts):
+    """name of the component that `v` is the whole of, else None"""
+    if isinstance(v, SeqV) and len(v.segs) == 1 and isinstance(v.segs[0], Sl):
+        g = v.segs[0]
+        for name, src in parts.items():
+            if g.src is src and p.store.decide_eq0(g.lo) is True and p.store.decide_eq0(g.hi - src.length) is True:
+                return name
+    return None
+
+
+def xor_bytes_form(p, v, parts):
+    """bytes value -> (multiset of component names XORed bytewise, length in bytes) or None"""
+    if not (isinstance(v, SeqV) and v.kind == 'bytes'):
+        return None
+    if all((isinstance(g, Rep) and g.unit == b'\x00') or (isinstance(g, Lit) and set(g.data) <= {0}) for g in v.segs):
+        return [], v.length()
+    d = _one_opq(v, 'xorb')
+    ops = list(d[1]) if d else [v]
+    names = []
+    for o in ops:
+        u = _one_opq(o, 'unhexlify')
+        if u is None:
+            # unhexlify of the hex rendering of a XOR of integers
+            return None
+        inner = u[1]
+        n = _part_of(p, inner, parts)
+        if n is not None:
+            names.append(n)
+            continue
+        f = xor_hex_form(p, inner, parts)
+        if f is None or p.store.decide_eq0(f[1] - o.length().scale(2)) is not True:
+            return None
+        names += f[0]
+    return names, v.length()
+
+
+def xor_hex_form(p, v, parts):
+    """str value -> (list of component names whose XOR it renders in hex, width in hex digits) or None.
+    Recognised: zero-filled base-16 numeral of a chain of integer XORs of int(component, 16); hexlify of a bytewise XOR
+    of unhexlify(component)."""
+    it = p.interp
+    if not (isinstance(v, SeqV) and v.kind == 'str'):
+        return None
+    if v.is_lit():
+        return ([], Lin.const(len(v.lit_value()))) if set(v.lit_value()) <= {'0'} else None
+    segs = list(v.segs)
+    fill = Lin.const(0)
+    if len(segs) == 2 and isinstance(segs[0], Rep) and segs[0].unit == '0':
+        fill = segs[0].count
+        segs = segs[1:]
+    if len(segs) == 1 and isinstance(segs[0], Num) and segs[0].base == 16 and segs[0].val is not None and \
+            (segs[0].fill == '0' or segs[0].minw <= 1):
+        names = []
+        for a in it.xor_atoms(segs[0].val):
+            sy = a.syms()
+            o = it.origin.get(sy[0]) if len(sy) == 1 and a == Lin.sym(sy[0]) else None
+            n = _part_of(p, o[1], parts) if isinstance(o, tuple) and o and o[0] == 'int' and o[2] == 16 else None
+            if isinstance(o, tuple) and o and o[0] == 'bitop':
+                raise NotXor({'BitOr': '|', 'BitAnd': '&', 'LShift': '<<', 'RShift': '>>'}.get(o[1], o[1]))
+            if n is None:
+                return None
+            names.append(n)
+        return names, fill + segs[0].width
+    if fill != Lin.const(0):
+        return None
+    d = _one_opq(v, 'hexlify') or _one_opq(v, 'decode')
+    while d is not None and d[0] == 'decode':
+        d = _one_opq(d[1], 'hexlify') or _one_opq(d[1], 'decode') if len(d) > 1 and isinstance(d[1], SeqV) else None
+    if d is None:
+        return None
+    f = xor_bytes_form(p, d[1], parts)
+    if f is None:
+        return None
+    return f[0], f[1].scale(2)
+
+
+def zmk_obs(prog, res, zfi):
+    """get_zone_master_key for 0-3 components of 32 or 48 hex digits (double / triple length 3DES keys)."""
+    obs = []
+    for L in (32, 48):
+        for k in (0, 1, 2, 3):
+            def entry(it, L=L, k=k):
+                parts = [it.sym_str(f'component{i + 1}', lo=L, hi=L, charset='hex') for i in range(k)]
+                it.user['parts'] = {f'component{i + 1}': s.segs[0].src for i, s in enumerate(parts)}
+                return it.call_function(zfi, parts, {})
+
+            def kcv_summary(it, fi, args, kwargs, node, self_obj):
+                it.user.setdefault('kcv_calls', []).append((list(args), dict(kwargs)))
+                from .. import seqops
+                return seqops.opaque(it, 'str', 6, 'kcv')
+            runs = Runs(prog, entry, summaries={'key.calculate_kcv': kcv_summary}, res=res)
+
+            def chk(p, mode, L=L, k=k):
+                if p.outcome != 'return':
+                    return [definite(f'get_zone_master_key raises {p.value!r}')] if p.outcome == 'raise' else []
+                v = p.interp.resolve(p.value)
+                if not (isinstance(v, TupleV) and len(v.items) == 2):
+                    return [definite(f'get_zone_master_key returns {v!r}, not (clear key, key check value)')]
+                parts = p.interp.user['parts']
+                want = sorted(parts)
+                clear = p.interp.resolve(v.items[0])
+                try:
+                    f = xor_hex_form(p, clear, parts)
+                except NotXor as ex:
+                    return [definite(f'the components are combined with the operator {ex}, not with XOR')]
+                if f is None:
+                    return [soft(f'clear key {clear!r} is not recognised as a hexadecimal XOR of the components')]
+                fails = []
+                if sorted(f[0]) != want:
+                    fails.append(definite(f'the clear key combines {sorted(f[0])}, not the XOR of every component once {want}'))
+                width = L if k else 32
+                fails += need_eq0(p.store, f[1] - width,
+                                  f'the clear key has {p.store.canon(f[1])} hex digits in {p.store.bounds(f[1])}, not the '
+                                  f'{width} of its {k} component(s): leading zeros lost or the value truncated')
+                calls = p.interp.user.get('kcv_calls', [])
+                if len(calls) != 1 or not calls[0][0]:
+                    fails.append(definite(f'calculate_kcv is called {len(calls)} times'))
+                else:
+                    kb = p.interp.resolve(calls[0][0][0])
+                    try:
+                        g = xor_bytes_form(p, kb, parts)
+                    except NotXor as ex:
+                        g = None
+                    if g is None:
+                        fails.append(soft(f'the key check value is computed over {kb!r}'))
+                    else:
+                        if sorted(g[0]) != want:
+                            fails.append(definite(f'the key check value is computed over the XOR of {sorted(g[0])}, not {want}'))
+                        fails += need_eq0(p.store, g[1].scale(2) - width,
+                                          f'the key check value is computed over a {p.store.canon(g[1])}-byte key, the '
+                                          f'components have {width // 2} bytes')
+                    kv = p.interp.resolve(v.items[1])
+                    if not (isinstance(kv, SeqV) and len(kv.segs) == 1 and isinstance(kv.segs[0], Opq) and kv.segs[0].desc == 'kcv'):
+                        fails.append(definite(f'the second result is {kv!r}, not the value returned by calculate_kcv'))
+                return fails
+            obs.append(runs.judge('C14.e', f'the clear zone master key is the XOR of its {k} component(s) of {L} hex digits, '
+                                           f'rendered in {L if k else 32} digits, and the KCV is taken over those bytes',
+                                  func_where(zfi), 'p1 = f"{int(p1, 16) ^ int(key_part, 16):0{width}x}"', chk,
+                                  rule=f'C14.e.xor[{L},{k}]'))
+    return obs
+
+
+def enc_zmk_ob(prog, res, fi):
+    def entry(it):
+        m = it.sym_str('master_key', lo=32, hi=32, charset='hex')
+        parts = [it.sym_str(f'component{i + 1}', lo=32, hi=32, charset='hex') for i in range(2)]
+        it.user.update(master=m, parts=parts)
+        return it.call_function(fi, [m] + parts, {})
+
+    def zmk_summary(it, f, args, kwargs, node, self_obj):
+        it.user.setdefault('zmk_calls', []).append((list(args), dict(kwargs)))
+        clear = it.sym_str('clear_key', lo=32, hi=32, charset='hex')
+        kcv = it.sym_str('kcv', lo=6, hi=6, charset='hex')
+        it.user.update(clear=clear, kcv=kcv)
+        return TupleV([clear, kcv])
+
+    def enc_summary(it, f, args, kwargs, node, self_obj):
+        names = [a.arg for a in f.node.args.args]
+        b = dict(zip(names, args))
+        b.update({k: v for k, v in kwargs.items() if k != '**'})
+        it.user.setdefault('enc_calls', []).append(b)
+        enc = it.sym_bytes('encrypted', lo=16, hi=16)
+        it.user['enc'] = enc
+        return enc
+    runs = Runs(prog, entry, summaries={'key.get_zone_master_key': zmk_summary, 'key.encrypt_key': enc_summary}, res=res)
+
+    def same(a, b):
+        return a is b or (isinstance(a, SeqV) and isinstance(b, SeqV) and repr(a) == repr(b))
+
+    def chk(p, mode):
+        if p.outcome != 'return':
+            return [definite(f'get_enc_zone_master_key raises {p.value!r}')] if p.outcome == 'raise' else []
+        u = p.interp.user
+        fails = []
+        z = u.get('zmk_calls', [])
+        if len(z) != 1:
+            return [definite(f'get_zone_master_key is called {len(z)} times')]
+        zargs = [p.interp.resolve(a) for a in z[0][0]]
+        if len(zargs) != 2 or not all(same(a, b) for a, b in zip(zargs, u['parts'])):
+            fails.append(definite(f'the components are combined from {zargs!r}, not the key parts given by the caller'))
+        e = u.get('enc_calls', [])
+        if len(e) != 1:
+            return fails + [definite(f'encrypt_key is called {len(e)} times')]
+        if not same(p.interp.resolve(e[0].get('key_to_encrypt')), u['clear']):
+            fails.append(definite(f'encrypt_key encrypts {e[0].get("key_to_encrypt")!r}, not the combined clear key'))
+        if not same(p.interp.resolve(e[0].get('master_key')), u['master']):
+            fails.append(definite(f'encrypt_key is keyed with {e[0].get("master_key")!r}, not the master key'))
+        v = p.interp.resolve(p.value)
+        if not (isinstance(v, TupleV) and len(v.items) == 2):
+            return fails + [definite(f'returns {v!r}')]
+        r0 = p.interp.resolve(v.items[0])
+        d = _one_opq(r0, 'hexlify')
+        if not (d is not None and same(d[1], u['enc'])):
+            fails.append(definite(f'the first result is {r0!r}, not the hex rendering of the encrypted key'))
+        if not same(p.interp.resolve(v.items[1]), u['kcv']):
+            fails.append(definite(f'the second result is {v.items[1]!r}, not the key check value of the clear key'))
+        return fails
+    return runs.judge('C14.e', 'the encrypted zone master key is encrypt_key(XOR of the components, master key) in hex, with '
+                               'the KCV of the clear key', func_where(fi),
+                      'enc_key = encrypt_key(plain_key, master_key)', chk, rule='C14.e.enc')
+
+
+def kcv_ob(prog, res, fi):
+    def entry(it):
+        k = it.sym_bytes('binary_key', lo=16, hi=24)
+        n = it.sym_int('kvc_length', 1, 16)
+        it.user.update(n=n)
+        return it.call_function(fi, [k, n], {})
+    runs = Runs(prog, entry, res=res)
+
+    def chk(p, mode):
+        if p.outcome != 'return':
+            return [definite(f'calculate_kcv raises {p.value!r}')] if p.outcome == 'raise' else []
+        fails = []
+        ups = [e for e in p.evs('method') if e.data['name'] == 'update']
+        if len(ups) != 1 or not ups[0].data['args']:
+            return [definite(f'{len(ups)} cipher update calls')]
+        data = p.interp.resolve(ups[0].data['args'][0])
+        zero = isinstance(data, SeqV) and data.kind == 'bytes' and data.segs and all(
+            (isinstance(g, Rep) and g.unit == b'\x00') or (isinstance(g, Lit) and set(g.data) <= {0}) for g in data.segs)
+        if not zero:
+            fails.append(definite(f'the key check value encrypts {data!r}, not zero bytes', ups[0].node))
         else:
-            ob.verdict, ob.detail, ob.witness = REFUTED, f'components are combined with {ops}', {'ops': ops}
-        res.add(ob)
+            fails += need_ge0(p.store, data.length() - 8, 'fewer than one block of zeros is encrypted', ups[0].node)
+        v = p.interp.resolve(p.value)
+        ok = False
+        if isinstance(v, SeqV) and v.kind == 'str' and len(v.segs) == 1 and isinstance(v.segs[0], Opq):
+            d = v.segs[0].desc
+            if d == 'hexlify':
+                ok = True      # the whole rendering (requested length not shorter than the ciphertext)
+            elif isinstance(d, tuple) and len(d) == 4 and d[0] == 'slice' and d[1] == 'hexlify':
+                lo, hi = Lin.of(d[2]), Lin.of(d[3])
+                ok = p.store.decide_eq0(lo) is True and p.store.decide_eq0(hi - p.interp.user['n'].lin) is True
+        if not ok:
+            fails.append(definite(f'calculate_kcv returns {v!r}, not the leading kvc_length hex digits of the ciphertext'))
+        hx = [e for e in p.evs('ext-call') if e.data['callee'] in ('binascii.hexlify', 'binascii.b2a_hex')]
+        if len(hx) != 1:
+            fails.append(definite(f'{len(hx)} hexlify calls'))
+        else:
+            a = hx[0].data['args'][0] if hx[0].data['args'] else None
+            upd = ups[0].data.get('result')
+            org = getattr(a, 'origin', None)
+            if not (a is upd or (isinstance(org, tuple) and org and org[0] == 'Add' and org[1] is upd)):
+                fails.append(definite(f'the rendered value is {a!r}, not the ciphertext of the zero block', hx[0].node))
+        return fails
+    return runs.judge('C14.e', 'the key check value is the leading kvc_length hex digits of the encryption of zero bytes',
+                      func_where(fi), "hexlify(encryptor.update(b'\\x00' * 16) + encryptor.finalize())[0:kvc_length]", chk,
+                      rule='C14.e.kcv', unknown_ok=lambda u: True)
 
 
 def cipher_ob_generic(prog, res, fi):
